@@ -21,14 +21,14 @@ for i in ids:
     txt.append("PROPERTY %s — %s\nStatement: %s\nQuantified over: %s\nWhere it lives (starting points only): %s" % (
         i, p["title"], p["statement"], p["quantifier"]["text"], ", ".join(p["anchors"]["files"][:8])) + avoid(i))
 print("""You are testing how good a verification harness for the restic backup program (Go) is, by planting realistic defects. You work ONLY in your own scratch git worktree of the restic repository; create it with:
-  git -C /repo worktree add --detach /tmp/seed2-%s HEAD
-and work inside /tmp/seed2-%s. Never edit /repo itself, never commit anywhere, and do NOT read anything under /verif (your change must be independent of the harness). Go is installed (run `go` from inside the worktree; it builds offline; set GOFLAGS=-mod=mod if go complains about vendoring; never use the network). The machine is shared and loaded: run only the tests you need (`go test ./internal/<pkg>/ -run <Name>`), not the whole suite at once, and be patient with build times.
+  git -C /repo worktree add --detach /tmp/seed3-%s HEAD
+and work inside /tmp/seed3-%s. Never edit /repo itself, never commit anywhere, and do NOT read anything under /verif (your change must be independent of the harness). Go is installed (run `go` from inside the worktree; it builds offline; set GOFLAGS=-mod=mod if go complains about vendoring; never use the network). The machine is shared and loaded: run only the tests you need (`go test ./internal/<pkg>/ -run <Name>`), not the whole suite at once, and be patient with build times.
 
 For EACH of the properties below, produce ONE change to the restic source (non-test .go files) that BREAKS the property while (a) still compiling, (b) keeping the existing unit/integration tests of the touched packages and of ./cmd/restic green (run `go test ./<touched pkg>/...` and, if the change can affect a command, `go test ./cmd/restic -run '<relevant>'`), and (c) looking like a plausible mistake or an innocent-looking refactoring/optimisation a maintainer could make. Prefer defects that need something SPECIFIC to manifest — a particular interleaving, a crash or fault at a particular point, a multi-step sequence of operations, an unusual input or boundary value, or two cooperating sites that each look fine alone — NOT ones that ordinary use or the existing tests would expose at once. Small diffs (1-15 lines).
 
 %s
 
-Deliverables, per property, in the directory /tmp/seed2-%s/OUT/<PROPERTY-ID>/ (create it):
+Deliverables, per property, in the directory /tmp/seed3-%s/OUT/<PROPERTY-ID>/ (create it):
   patch.diff   — `git diff` of the source change only (paths relative to the repo root, applies with `git apply` on a clean checkout of HEAD)
   demo_test.go (or demo/main.go) — a demonstration that FAILS with the change and PASSES without it: a Go test file that can be dropped into a named package directory of the repo (say which one in the first comment line, e.g. `// package dir: internal/filter`) and run with `go test ./<dir>/ -run TestDemo...`
   meta.json    — {"property": "<ID>", "summary": "<one sentence: what the change does>", "needs": "<what specific input/sequence/fault/interleaving is needed for the defect to manifest>", "files": ["..."], "demo_dir": "<package dir for demo_test.go>", "demo_run": "<-run pattern>", "ran": ["<commands you ran and their outcome>"]}
